@@ -442,3 +442,7 @@ func VerifInitializingDecode(steps int8, data []byte) (int, bool, error) {
 	err := c.InitializingDecode(fs)
 	return fs.discarded, fs.status == Initialized, err
 }
+
+// Write / Writev call the connection's own write path (straight to the socket, backlog in the outbound buffer).
+func (v *VerifConn) Write(p []byte) (int, error)     { return v.c.write(p) }
+func (v *VerifConn) Writev(bs [][]byte) (int, error) { return v.c.writev(bs) }
